@@ -604,6 +604,8 @@ func tryReplay(eng *Engine, verif string, o *Obligation) *replayResult {
 	switch {
 	case strings.Contains(outs, "GOVC-REPLAY-PRECONDITION-NOT-MET"):
 		rr.note = "the rebuilt input does not satisfy the function's precondition (model detail lost in reconstruction)"
+	case strings.Contains(outs, "GOVC-REPLAY-PANIC") && !strings.Contains(outs, "GOVC-REPLAY-VIOLATION") && !strings.HasPrefix(o.Kind, "safety"):
+		rr.note = "the real function panicked on the rebuilt input, but the failed obligation is not a safety obligation (interface/map fields of the input are not rebuilt) — not counted as a reproduction"
 	case strings.Contains(outs, "GOVC-REPLAY-VIOLATION") || strings.Contains(outs, "GOVC-REPLAY-PANIC"):
 		rr.reproduced = true
 		rr.note = "the real function, run on the solver's model, breaks its contract"
